@@ -498,6 +498,30 @@ func c12Extras(env *runEnv, idp *fakeIdP, g *gwInstance, cf c12cfg, ci int, addr
 			emit("token-issued-through-10.1.2.3,203.0.113.9-presented-by-203.0.113.9", v)
 		}
 	}
+	// (2a) access tokens of the size identity providers really issue (a signed token with group claims): the
+	// gateway's token that embeds it is several thousand characters long and is accepted like any other
+	if ci <= 1 && cf.verify {
+		for _, n := range []int{1000, 1300, 1500} { // (larger identities do not fit the 4096-byte cookie store)
+			b := newBrowser()
+			at := fmt.Sprintf("c12x-at-%d-%d-long-", env.seed, ci) + strings.Repeat("Aa0_", n/4)
+			idp.setToken(at, atBehaviour{kind: "valid", sub: "alice"})
+			idp.setCode(fmt.Sprintf("code-long-%d-%d", ci, n), codeBehaviour{kind: "ok", accessToken: at, claims: map[string]interface{}{"preferred_username": "alice"}})
+			b.login(g, "/connect", fmt.Sprintf("code-long-%d-%d", ci, n))
+			resp, body, err := b.get(g.base() + "/connect")
+			v := "exact"
+			if err != nil || resp.StatusCode != 200 {
+				v = "no-file"
+			} else {
+				tok, _ := rdpField(body, "gatewayaccesstoken")
+				addr, _ := rdpField(body, "full address")
+				server, port := splitHostPort(addr)
+				if r := tunnelReplay(g, tok, server, port, ""); r != "0,0" {
+					v = "fresh-token-refused:" + r
+				}
+			}
+			emit(fmt.Sprintf("fresh-token-embedding-a-%d-character-access-token-is-accepted", n), v)
+		}
+	}
 	// (2b) request headers do not decide which gateway the file names
 	if ci <= 1 {
 		b := newBrowser()
